@@ -142,7 +142,10 @@ func c01Run(t *testing.T, r *verifkit.Run, cfg plogCfg, ch chooser) (sig string,
 		s.teardown()
 		sig = traceSig(s.trace)
 		acked = len(ackedRes)
-		faultsUsed = s.faults
+		faultsUsed = s.faults + s.cancels
+		if s.cancels > 0 {
+			r.Count("cases_with_ctx_cancel", 1)
+		}
 		for _, e := range s.s3.events {
 			r.Count("s3_"+e.Op+"_"+e.Outcome, 1)
 		}
